@@ -36,8 +36,10 @@ def main():
                 shutil.copy(os.path.join("/repo", f), os.path.join(wt, f))
         if a.patch != "none":
             subprocess.check_call(["git", "-C", wt, "apply", os.path.abspath(a.patch)])
-        subprocess.check_call(["rsync", "-a", "--exclude", ".git", "--exclude", "build", "--exclude", "evidence/replays",
-                               V + "/", vv + "/"])
+        rc = subprocess.call(["rsync", "-a", "--exclude", ".git", "--exclude", "build", "--exclude", "evidence/replays",
+                              V + "/", vv + "/"])
+        if rc not in (0, 24):      # 24 = some files vanished while copying (other sessions write scratch files)
+            raise RuntimeError("rsync failed: %d" % rc)
         env = dict(os.environ, VERIF_REPO=wt)
         for p in a.props:
             r = subprocess.run([sys.executable, os.path.join(vv, "tools", "check.py"), p, "--tier", a.tier], env=env,
